@@ -42,18 +42,25 @@ def _callee_heads(t):
 
 def inventory(b):
     inv = []
-    for bi, k, d, rv in b.ret_assignments():
-        if k == "agg" and d[1] in ("Err", "None"):
-            t = apnf.N(strip_all(b.rvalue_term(rv)))
-            name = d[1]
-            if isinstance(t, tuple) and len(t) > 1 and isinstance(t[1], tuple) and t[1]:
-                x = t[1]
-                # ValidationErr::Err(ErrorCode::X) -> ErrorCode::X ; Error::X(..) -> Error::X
+    # explicit refusals: every construction of Result::Err(<error value>) anywhere in the body (covers `return Err(..)`,
+    # `Some(Err(..))` of fallible iterators, `.ok_or(Err..)` arguments) and every `_0 = None`
+    for bi, blk in enumerate(b.blocks):
+        if bi not in b.reach:
+            continue
+        for st in blk["s"]:
+            if st["k"] != "assign" or st["rv"]["k"] != "agg":
+                continue
+            rv = st["rv"]
+            if rv.get("adt") == "core::result::Result" and rv.get("variant") == "Err":
+                t = apnf.N(strip_all(b.rvalue_term(rv)))
+                x = t
                 while isinstance(x, tuple) and len(x) > 1 and isinstance(x[1], tuple) and x[1] and isinstance(x[1][0], str) and "::" in x[1][0]:
                     x = x[1]
-                name = "%s(%s)" % (d[1], x[0] if isinstance(x, tuple) and isinstance(x[0], str) else str(x)[:40])
-            inv.append("explicit:" + name)
-        elif k == "call" and "from_residual" in str(d):
+                inv.append("explicit:Err(%s)" % (x[0] if isinstance(x, tuple) and isinstance(x[0], str) else str(x)[:40]))
+            elif rv.get("adt") == "core::option::Option" and rv.get("variant") == "None" and st["pl"]["l"] == 0 and not st["pl"].get("p"):
+                inv.append("explicit:None")
+    for bi, k, d, rv in b.ret_assignments():
+        if k == "call" and "from_residual" in str(d):
             t = apnf.N(strip_all(b.call_term(rv)))
             heads = _callee_heads(t)
             inv.append("propagates:" + (heads[0] if heads else "?"))
